@@ -192,8 +192,9 @@ def BER_analizer(mode: Literal['counter', 'estimator'], **kargs):
         Rx = kargs['Rx']
         Tx = kargs['Tx']
 
-        if not isinstance(Rx, binary_sequence) and not isinstance(Tx, binary_sequence):
+        if not isinstance(Rx, binary_sequence):
             Rx = binary_sequence( Rx )
+        if not isinstance(Tx, binary_sequence):
             Tx = binary_sequence( Tx )
 
         Tx = Tx[:Rx.len()]
